@@ -56,7 +56,9 @@ Record table := mkTable {
   t_pf_el_inval_d : bool;
   t_csr_key_groups : bool;  (* cache key of __Get_csr_map contains the contributing groups *)
   t_csr_key_ndof : bool;    (* ... and Ndof *)
-  t_mass_key_group : bool   (* cache key of HyperElastic.__Mass_e contains the group *)
+  t_mass_key_group : bool;  (* cache key of HyperElastic.__Mass_e contains the group *)
+  t_model_cache_refresh : bool (* every reader of a derived quantity cached ON the model (e.g. sqrt(C), sqrt(S) of an
+                                  elastic law) triggers the model's lazy update before it tests that cache *)
 }.
 
 Definition not_never (m : nmode) : bool := match m with NNever => false | _ => true end.
@@ -69,7 +71,7 @@ Definition table_ok (T : table) : bool :=
   not_never (t_bcinit T) && not_never (t_dirichlet T) && not_never (t_lagrange T) &&
   t_newton_need T && t_pf_need_d T && t_pf_need_u T && t_pf_setiter_d T && t_pf_setiter_u T &&
   t_pf_dmg_inval_u T && t_pf_el_inval_d T && t_csr_key_groups T && t_csr_key_ndof T &&
-  t_mass_key_group T.
+  t_mass_key_group T && t_model_cache_refresh T.
 
 (* ---- state ------------------------------------------------------------------------- *)
 Record meshS := mkMesh { pose : N; shape : N; gtag : option N }.
@@ -79,14 +81,16 @@ Definition ckey := (nat * N)%type.
 Definition ckey_eqb (a b : ckey) := Nat.eqb (fst a) (fst b) && N.eqb (snd a) (snd b).
 
 Record key := mkKey { k_mesh : nat; k_geo : N; k_par : N; k_rho : N; k_ray : N; k_ldim : N;
-                      k_mshape : N; k_csr : ckey; k_sol : N }.
+                      k_mshape : N; k_csr : ckey; k_sol : N; k_derived : N }.
 
 Record cfgS := mkCfg { cur : nat; rho : N; ray : N; nlag : N; ndir : N; algo : N; solU : N; solD : N }.
 Record cacheS := mkCache { need : bool; kcmf : option key; csr : list (ckey * ckey); massc : list (ckey * N) }.
 Record pfS := mkPf { updD : bool; updU : bool; kD : option key; kU : option key }.
 Record regS := mkReg { subs : list nat; hist : list nat; subm : bool; submat : bool; iters : list nat }.
 Record simS := mkSim { kd : kind; cf : cfgS; ca : cacheS; pf : pfS; rg : regS }.
-Record world := mkW { clock : N; par : N; meshes : list meshS; sims : list simS }.
+(* [mcache]: the derived quantities cached on the model object, tagged with the parameter version they
+   were computed from (None = not computed yet) *)
+Record world := mkW { clock : N; par : N; mcache : option N; meshes : list meshS; sims : list simS }.
 
 Definition mget (ms : list meshS) (m : nat) := nth m ms dmesh.
 Definition ldim (c : cfgS) : N := if N.eqb (nlag c) 0 then 0%N else (nlag c + ndir c)%N.
@@ -94,7 +98,7 @@ Definition ldim (c : cfgS) : N := if N.eqb (nlag c) 0 then 0%N else (nlag c + nd
 Definition ideal (p : N) (ms : list meshS) (s : simS) (solv : N) : key :=
   let c := cf s in
   mkKey (cur c) (pose (mget ms (cur c))) p (rho c) (ray c) (ldim c)
-        (shape (mget ms (cur c))) (cur c, ldim c) solv.
+        (shape (mget ms (cur c))) (cur c, ldim c) solv p.
 
 Fixpoint lookup {V} (k : ckey) (l : list (ckey * V)) : option V :=
   match l with [] => None | (k', v) :: r => if ckey_eqb k k' then Some v else lookup k r end.
@@ -114,18 +118,20 @@ Definition mass_used (T : table) (ms : list meshS) (s : simS) : N :=
   end.
 
 (* the tag of what an assembly performed NOW would produce (reads the caches) *)
-Definition asm_key (T : table) (p : N) (ms : list meshS) (s : simS) (solv : N) : key :=
+Definition derived_used (T : table) (p : N) (mc : option N) : N :=
+  if t_model_cache_refresh T then p else match mc with Some v => v | None => p end.
+Definition asm_key (T : table) (p : N) (mc : option N) (ms : list meshS) (s : simS) (solv : N) : key :=
   let c := cf s in
   mkKey (cur c) (geo_used (mget ms (cur c))) p (rho c) (ray c) (ldim c)
-        (mass_used T ms s) (csr_used T s) solv.
+        (mass_used T ms s) (csr_used T s) solv (derived_used T p mc).
 
 (* what the next Get_K_C_M_F / Solve uses *)
-Definition observe (T : table) (p : N) (ms : list meshS) (s : simS) : list (option key) :=
+Definition observe (T : table) (p : N) (mc : option N) (ms : list meshS) (s : simS) : list (option key) :=
   match kd s with
-  | KLin => [if need (ca s) then Some (asm_key T p ms s 0) else kcmf (ca s)]
-  | KNonLin => [if t_newton_need T || need (ca s) then Some (asm_key T p ms s (solU (cf s))) else kcmf (ca s)]
-  | KPF => [if updU (pf s) then kU (pf s) else Some (asm_key T p ms s (solD (cf s)));
-            if updD (pf s) then kD (pf s) else Some (asm_key T p ms s (solU (cf s)))]
+  | KLin => [if need (ca s) then Some (asm_key T p mc ms s 0) else kcmf (ca s)]
+  | KNonLin => [if t_newton_need T || need (ca s) then Some (asm_key T p mc ms s (solU (cf s))) else kcmf (ca s)]
+  | KPF => [if updU (pf s) then kU (pf s) else Some (asm_key T p mc ms s (solD (cf s)));
+            if updD (pf s) then kD (pf s) else Some (asm_key T p mc ms s (solU (cf s)))]
   end.
 Definition ideal_obs (p : N) (ms : list meshS) (s : simS) : list (option key) :=
   match kd s with
@@ -181,20 +187,20 @@ Definition fill_sim (T : table) (ms : list meshS) (s : simS) : simS :=
       | _ => massc (ca s) end)).
 
 (* Get_K_C_M_F of a single-problem simulation *)
-Definition getk_sim (T : table) (p : N) (ms : list meshS) (solv : N) (s : simS) : simS :=
+Definition getk_sim (T : table) (p : N) (mc : option N) (ms : list meshS) (solv : N) (s : simS) : simS :=
   if need (ca s) then
     let s1 := fill_sim T ms s in
-    set_ca s1 (mkCache (if t_getk_reset T then false else true) (Some (asm_key T p ms s solv))
+    set_ca s1 (mkCache (if t_getk_reset T then false else true) (Some (asm_key T p mc ms s solv))
                        (csr (ca s1)) (massc (ca s1)))
   else s.
-Definition getkU (T : table) (p : N) (ms : list meshS) (s : simS) : simS :=
+Definition getkU (T : table) (p : N) (mc : option N) (ms : list meshS) (s : simS) : simS :=
   if updU (pf s) then s else
     let s1 := fill_sim T ms s in
-    set_pf s1 (mkPf (updD (pf s)) true (kD (pf s)) (Some (asm_key T p ms s (solD (cf s))))).
-Definition getkD (T : table) (p : N) (ms : list meshS) (s : simS) : simS :=
+    set_pf s1 (mkPf (updD (pf s)) true (kD (pf s)) (Some (asm_key T p mc ms s (solD (cf s))))).
+Definition getkD (T : table) (p : N) (mc : option N) (ms : list meshS) (s : simS) : simS :=
   if updD (pf s) then s else
     let s1 := fill_sim T ms s in
-    set_pf s1 (mkPf true (updU (pf s)) (Some (asm_key T p ms s (solU (cf s)))) (kU (pf s))).
+    set_pf s1 (mkPf true (updU (pf s)) (Some (asm_key T p mc ms s (solU (cf s)))) (kU (pf s))).
 
 Definition set_solU (v : N) (s : simS) :=
   set_cf s (mkCfg (cur (cf s)) (rho (cf s)) (ray (cf s)) (nlag (cf s)) (ndir (cf s)) (algo (cf s)) v (solD (cf s))).
@@ -203,15 +209,15 @@ Definition set_solD (v : N) (s : simS) :=
 Definition set_flags (d u : bool) (s : simS) := set_pf s (mkPf d u (kD (pf s)) (kU (pf s))).
 
 (* one Solve.  [v1 v2] are two fresh versions. *)
-Definition solve_sim (T : table) (p : N) (ms : list meshS) (v1 v2 : N) (s : simS) : simS :=
+Definition solve_sim (T : table) (p : N) (mc : option N) (ms : list meshS) (v1 v2 : N) (s : simS) : simS :=
   match kd s with
-  | KLin => set_solU v1 (getk_sim T p ms 0 s)
+  | KLin => set_solU v1 (getk_sim T p mc ms 0 s)
   | KNonLin => let s1 := if t_newton_need T then raise T s else s in
-               set_solU v1 (getk_sim T p ms (solU (cf s)) s1)
+               set_solU v1 (getk_sim T p mc ms (solU (cf s)) s1)
   | KPF =>
-      let s1 := set_solD v1 (getkD T p ms s) in
+      let s1 := set_solD v1 (getkD T p mc ms s) in
       let s2 := if t_pf_dmg_inval_u T then set_flags (updD (pf s1)) false s1 else s1 in
-      let s3 := set_solU v2 (getkU T p ms s2) in
+      let s3 := set_solU v2 (getkU T p mc ms s2) in
       if t_pf_el_inval_d T then set_flags false (updU (pf s3)) s3 else s3
   end.
 
@@ -270,25 +276,25 @@ Definition tick (w : world) := (clock w + 1)%N.
 Definition tick2 (w : world) := (clock w + 2)%N.
 
 Definition on_sim (w : world) (i : nat) (f : simS -> simS) : world :=
-  mkW (tick2 w) (par w) (meshes w) (upd_nth i f (sims w)).
+  mkW (tick2 w) (par w) (mcache w) (meshes w) (upd_nth i f (sims w)).
 
 Definition cur_of (w : world) (i : nat) : option nat :=
   match nth_error (sims w) i with Some s => Some (cur (cf s)) | None => None end.
 
 Definition step (T : table) (w : world) (o : op) : world :=
   match o with
-  | OParam sub => mkW (tick w) (tick w) (meshes w) (map (react_model T sub) (sims w))
+  | OParam sub => mkW (tick w) (tick w) (mcache w) (meshes w) (map (react_model T sub) (sims w))
   | OMeshMove m k =>
-      mkW (tick w) (par w)
+      mkW (tick w) (par w) (mcache w)
           (upd_nth m (fun x => mkMesh (tick w)
                                   (match k with MCoordSet => tick w | _ => shape x end)
                                   (if t_mesh_clear T k then None else gtag x)) (meshes w))
           (if Nat.ltb m (length (meshes w)) then map (react_mesh T m k) (sims w) else sims w)
-  | ONewMesh => mkW (tick w) (par w) (meshes w ++ [mkMesh (tick w) (tick w) None]) (sims w)
-  | OGeoRead m => mkW (clock w) (par w) (upd_nth m fill_mesh (meshes w)) (sims w)
+  | ONewMesh => mkW (tick w) (par w) (mcache w) (meshes w ++ [mkMesh (tick w) (tick w) None]) (sims w)
+  | OGeoRead m => mkW (clock w) (par w) (mcache w) (upd_nth m fill_mesh (meshes w)) (sims w)
   | ONewSim k m =>
       if Nat.ltb m (length (meshes w)) then
-        mkW (tick w) (par w) (meshes w) (sims w ++ [new_sim T k m (tick w)])
+        mkW (tick w) (par w) (mcache w) (meshes w) (sims w ++ [new_sim T k m (tick w)])
       else w
   | ORho i => on_sim w i (fun s =>
         let s1 := set_cf s (mkCfg (cur (cf s)) (tick w) (ray (cf s)) (nlag (cf s)) (ndir (cf s)) (algo (cf s)) (solU (cf s)) (solD (cf s))) in
@@ -313,34 +319,38 @@ Definition step (T : table) (w : world) (o : op) : world :=
       | Some s0 =>
           match kd s0 with
           | KNonLin => w   (* Get_K_C_M_F is not a public observable of a Newton simulation outside Solve *)
-          | KLin => mkW (clock w) (par w)
+          | KLin => mkW (clock w) (par w) (if need (ca s0) then Some (par w) else mcache w)
                         (if need (ca s0) then upd_nth (cur (cf s0)) fill_mesh (meshes w) else meshes w)
-                        (upd_nth i (getk_sim T (par w) (meshes w) 0) (sims w))
+                        (upd_nth i (getk_sim T (par w) (mcache w) (meshes w) 0) (sims w))
           | KPF => mkW (clock w) (par w)
+                       (if (if dmg then updD (pf s0) else updU (pf s0)) then mcache w else Some (par w))
                        (if (if dmg then updD (pf s0) else updU (pf s0)) then meshes w
                         else upd_nth (cur (cf s0)) fill_mesh (meshes w))
-                       (upd_nth i (if dmg then getkD T (par w) (meshes w) else getkU T (par w) (meshes w)) (sims w))
+                       (upd_nth i (if dmg then getkD T (par w) (mcache w) (meshes w) else getkU T (par w) (mcache w) (meshes w)) (sims w))
           end
       end
   | OSolve i =>
       match nth_error (sims w) i with
       | None => w
-      | Some s0 => mkW (tick2 w) (par w) (upd_nth (cur (cf s0)) fill_mesh (meshes w))
-                       (upd_nth i (solve_sim T (par w) (meshes w) (tick w) (tick2 w)) (sims w))
+      | Some s0 => mkW (tick2 w) (par w)
+                       (match kd s0 with KLin => if need (ca s0) then Some (par w) else mcache w | _ => Some (par w) end)
+                       (upd_nth (cur (cf s0)) fill_mesh (meshes w))
+                       (upd_nth i (solve_sim T (par w) (mcache w) (meshes w) (tick w) (tick2 w)) (sims w))
       end
   | OSaveIter i => on_sim w i (fun s =>
         set_rg s (mkReg (subs (rg s)) (hist (rg s)) (subm (rg s)) (submat (rg s)) (iters (rg s) ++ [cur (cf s)])))
   | OSetIter i j => on_sim w i (setiter_sim T j (tick w) (tick2 w))
   end.
 
-Definition w0 : world := mkW 1 1 [mkMesh 1 1 None] [].
+Definition w0 : world := mkW 1 1 None [mkMesh 1 1 None] [].
 Definition run (T : table) (ops : list op) (w : world) : world := fold_left (step T) ops w.
 
 (* ---- decidable comparison of observations, flag identifiers, witnesses ------------------- *)
 Definition key_eqb (a b : key) : bool :=
   Nat.eqb (k_mesh a) (k_mesh b) && N.eqb (k_geo a) (k_geo b) && N.eqb (k_par a) (k_par b) &&
   N.eqb (k_rho a) (k_rho b) && N.eqb (k_ray a) (k_ray b) && N.eqb (k_ldim a) (k_ldim b) &&
-  N.eqb (k_mshape a) (k_mshape b) && ckey_eqb (k_csr a) (k_csr b) && N.eqb (k_sol a) (k_sol b).
+  N.eqb (k_mshape a) (k_mshape b) && ckey_eqb (k_csr a) (k_csr b) && N.eqb (k_sol a) (k_sol b) &&
+  N.eqb (k_derived a) (k_derived b).
 Definition okey_eqb (a b : option key) : bool :=
   match a, b with Some x, Some y => key_eqb x y | None, None => true | _, _ => false end.
 Fixpoint obs_eqb (a b : list (option key)) : bool :=
@@ -352,7 +362,7 @@ Fixpoint obs_eqb (a b : list (option key)) : bool :=
 
 (* does some simulation of the world NOT behave like a fresh one? *)
 Definition stale_sims (T : table) (w : world) : list nat :=
-  map fst (filter (fun x => negb (obs_eqb (observe T (par w) (meshes w) (snd x)) (ideal_obs (par w) (meshes w) (snd x))))
+  map fst (filter (fun x => negb (obs_eqb (observe T (par w) (mcache w) (meshes w) (snd x)) (ideal_obs (par w) (meshes w) (snd x))))
                   (combine (seq 0 (length (sims w))) (sims w))).
 Definition refutes (T : table) (ops : list op) : bool :=
   match stale_sims T (run T ops w0) with [] => false | _ => true end.
@@ -371,9 +381,10 @@ Definition flag_of (T : table) (id : nat) : bool :=
   | 24 => t_newton_need T | 25 => t_pf_need_d T | 26 => t_pf_need_u T | 27 => t_pf_setiter_d T
   | 28 => t_pf_setiter_u T | 29 => t_pf_dmg_inval_u T | 30 => t_pf_el_inval_d T
   | 31 => t_csr_key_groups T | 32 => t_csr_key_ndof T | 33 => t_mass_key_group T
+  | 34 => t_model_cache_refresh T
   | _ => true
   end.
-Definition all_ids : list nat := seq 1 33.
+Definition all_ids : list nat := seq 1 34.
 Definition failing (T : table) : list nat := filter (fun id => negb (flag_of T id)) all_ids.
 
 (* the table with the flags listed in [off] switched off (everything else as the property needs) *)
@@ -381,10 +392,10 @@ Definition mk_table (off : list nat) : table :=
   let on id := negb (existsb (Nat.eqb id) off) in
   mkTable (on 1) (on 2) (on 3) (on 4) (on 5) (on 6) true (on 7) (on 8) (on 9)
           (fun k => on (10 + mop_idx k)) (fun k => on (14 + mop_idx k))
-          (on 18) (on 34) (on 19) (on 20) (on 35)
+          (on 18) (on 40) (on 19) (on 20) (on 41)
           (if on 21 then NIfLag else NNever) (if on 22 then NIfLag else NNever) NNever
           (if on 23 then NAlways else NNever) true (on 24) (on 25) (on 26) (on 27) (on 28) (on 29) (on 30)
-          (on 31) (on 32) (on 33).
+          (on 31) (on 32) (on 33) (on 34).
 Definition good_table : table := mk_table [].
 
 (* a model-level witness (op list) for every flag: run with that flag off, some simulation is stale *)
@@ -415,6 +426,7 @@ Definition witness (id : nat) : list op :=
   | 31 => [lin; ONewMesh; OGetK 0 false; OSetMesh 0 1]
   | 32 => [lin; OGetK 0 false; OLagrange 0]
   | 33 => [nl; ONewMesh; OSolve 0; OMeshMove 1 MCoordSet; OSetMesh 0 1]
+  | 34 => [pfs; OGetK 0 false; OParam true]
   | _ => []
   end.
 
